@@ -46,17 +46,27 @@ long long c_coord2cell(long long nrows, long long ncols,
     long long nval, double * xycoords, long long * idxcell)
 {
     long long ierr, i, nx, ny;
+    double fx, fy;
     ierr = 0;
 
     for(i=0; i<nval; i++)
     {
-        nx = (long long)((xycoords[2*i]-xll)/csz);
-        ny = nrows-1-(long long)((xycoords[2*i+1]-yll)/csz);
+        /* Column and row counted from the lower left corner.
+         * floor (not truncation) so that points up to one cell left of
+         * or below the grid are not mapped to the first column or row */
+        fx = floor((xycoords[2*i]-xll)/csz);
+        fy = floor((xycoords[2*i+1]-yll)/csz);
 
-        if(nx<0 || nx>=ncols || ny<0 || ny>=nrows)
-            idxcell[i] = -1;
-        else
+        /* The test fails for points outside the extent and for
+         * coordinates that are not finite */
+        if(fx>=0 && fx<ncols && fy>=0 && fy<nrows)
+        {
+            nx = (long long)fx;
+            ny = nrows-1-(long long)fy;
             idxcell[i] = ny*ncols+nx;
+        }
+        else
+            idxcell[i] = -1;
     }
 
     return ierr;
